@@ -3,6 +3,7 @@ package c11
 import (
 	"fmt"
 	"math"
+	"strings"
 
 	"github.com/tendermint/tendermint/crypto/ed25519"
 	cryptoenc "github.com/tendermint/tendermint/crypto/encoding"
@@ -126,12 +127,12 @@ func (h *hist) newWireMut(ev *types.LightClientAttackEvidence, insufficient bool
 				l.ConflictingBlock.ValidatorSet.Proposer = &tmproto.Validator{Address: k.PubKey().Address(), PubKey: pk, VotingPower: pw, ProposerPriority: -pw}
 			})
 		case 4:
-			d := 1 + h.r.Int63n(1<<40)
+			pw := 1 + h.r.Int63n(1<<40) // an absolute value, so that re-applying changes nothing
 			add("proposer=power-changed", func(l *tmproto.LightClientAttackEvidence) {
 				vs := l.ConflictingBlock.ValidatorSet
 				if vs.Proposer != nil {
 					cp := *vs.Proposer
-					cp.VotingPower += d
+					cp.VotingPower = pw
 					vs.Proposer = &cp
 				}
 			})
@@ -142,7 +143,7 @@ func (h *hist) newWireMut(ev *types.LightClientAttackEvidence, insufficient bool
 			m.malformed = true
 			add("proposer=short-address", func(l *tmproto.LightClientAttackEvidence) {
 				vs := l.ConflictingBlock.ValidatorSet
-				if vs.Proposer != nil {
+				if vs.Proposer != nil && len(vs.Proposer.Address) > 5 {
 					cp := *vs.Proposer
 					cp.Address = cp.Address[:5]
 					vs.Proposer = &cp
@@ -245,7 +246,9 @@ func (h *hist) countWire(m *wireMut, gerr error) {
 		res = "rejected-by-fromproto"
 	}
 	h.c.Count("wire/"+res, 1)
-	h.c.Count("wire-mutation/"+m.name+"/"+res, 1)
+	for _, part := range strings.Split(m.name, "+") {
+		h.c.Count("wire-mutation/"+part+"/"+res, 1)
+	}
 }
 
 // guard runs a call into the code under test; a panic there on delivered
